@@ -15,9 +15,9 @@ import (
 // by kernel evaluation on every run.
 
 var (
-	factBlock1 = [][]byte{[]byte(" a/./b/../a\t=  7  "), []byte("b=2"), []byte("\u3000finalizedHeight/ = x=y"), []byte("/=r"), []byte("b=3")}
+	factBlock1 = [][]byte{[]byte(" a/./b/../a\t=  7  "), []byte("b=2"), []byte("\u3000finalizedHeight/x/ = x=y"), []byte("/=r"), []byte("b=3")}
 	factBlock2 = [][]byte{[]byte("c=1"), []byte("genesis/../genesis//stateroot=1")} // rejected: reserved
-	factBad    = [][]byte{[]byte("novalue"), []byte(" \t=v"), []byte("genesis/./initialized = 1")}
+	factBad    = [][]byte{[]byte("novalue"), []byte(" \t=v"), []byte("genesis/./initialized = 1"), []byte("\u2003./finalizedHeight/ = 9")}
 )
 
 func errCode(err error) int {
@@ -75,6 +75,11 @@ func factsC15() (string, error) {
 	}
 	r3, _, _ := ex.ExecuteTxs(ctx, nil, 3, t0, r2)
 	def("rootAfterFinal1203", r3)
+	fv, ok := ex.GetStoreValue(ctx, "finalizedHeight/")
+	if !ok {
+		return "", fmt.Errorf("SetFinal(1203) stored nothing under /finalizedHeight")
+	}
+	def("finalizedValue", []byte(fv))
 	nat("finalZeroRejected", map[bool]int{true: 1, false: 0}[ex.SetFinal(ctx, 0) != nil])
 	g2, _, err := ex.InitChain(ctx, t0, 1, "c15")
 	if err != nil {
